@@ -1402,11 +1402,13 @@ int ov_raw_seek(OggVorbis_File *vf,ogg_int64_t pos){
         ogg_stream_reset_serialno(&vf->os,serialno);
         ogg_stream_reset_serialno(&work_os,serialno);
         vf->ready_state=STREAMSET;
-        firstflag=(pagepos<=vf->dataoffsets[link]);
       }
 
       ogg_stream_pagein(&vf->os,&og);
       ogg_stream_pagein(&work_os,&og);
+      /* both describe the page just submitted, whatever state we
+         entered the loop in */
+      firstflag=(pagepos<=vf->dataoffsets[vf->current_link]);
       lastflag=ogg_page_eos(&og);
 
     }
